@@ -434,7 +434,31 @@ func (a *effAnalysis) origin1(v ssa.Value) Origin {
 		return Origin{Root: l.Root, Path: l.Path}
 	case *ssa.Phi:
 		var first *Origin
-		for _, e := range x.Edges {
+		// the web of merges and of `l = append(l, ...)`: its origin is the common origin of what enters it
+		web := map[ssa.Value]bool{}
+		var leaves []ssa.Value
+		var walk func(v ssa.Value)
+		walk = func(v ssa.Value) {
+			if web[v] {
+				return
+			}
+			web[v] = true
+			switch y := v.(type) {
+			case *ssa.Phi:
+				for _, e := range y.Edges {
+					walk(e)
+				}
+				return
+			case *ssa.Call:
+				if b, ok := y.Common().Value.(*ssa.Builtin); ok && b.Name() == "append" && len(y.Common().Args) > 0 {
+					walk(y.Common().Args[0])
+					return
+				}
+			}
+			leaves = append(leaves, v)
+		}
+		walk(x)
+		for _, e := range leaves {
 			if c, ok := e.(*ssa.Const); ok && c.Value == nil {
 				continue
 			}
@@ -763,6 +787,10 @@ func (a *effAnalysis) merge(ce *Effects, args []ssa.Value) {
 
 func (a *effAnalysis) callOrigin(call *ssa.Call) Origin {
 	common := call.Common()
+	if b, ok := common.Value.(*ssa.Builtin); ok && b.Name() == "append" && len(common.Args) > 0 {
+		// the result of append is its first argument's backing array or a fresh one
+		return a.origin(common.Args[0])
+	}
 	callee := a.calleeOf(common)
 	if callee == nil {
 		return Origin{Root: "o"}
